@@ -16,7 +16,7 @@ func Main(d *Design) {
 	casesPath := flag.String("cases", "", "cases jsonl")
 	outPath := flag.String("out", "", "events jsonl")
 	id := flag.String("id", "", "design id")
-	nilFmt := flag.Bool("nilformatter", false, "pass a nil error formatter to the generated server")
+	withFmt := flag.Bool("formatter", false, "pass goahttp.NewErrorResponse as error formatter to the generated server (default nil, as `goa example` does)")
 	mode := flag.String("mode", "seq", "seq | conc | mounts")
 	workers := flag.Int("workers", 8, "client goroutines in conc mode")
 	seed := flag.Uint64("seed", 1, "seed for delay injection in conc mode")
@@ -26,7 +26,7 @@ func Main(d *Design) {
 		fmt.Fprintln(os.Stderr, "driver:", err)
 		os.Exit(2)
 	}
-	dr := NewDriver0(d, sp, *id, *nilFmt)
+	dr := NewDriver0(d, sp, *id, !*withFmt)
 	if err := dr.OpenLog(*outPath); err != nil {
 		fmt.Fprintln(os.Stderr, "driver:", err)
 		os.Exit(2)
